@@ -62,11 +62,11 @@ pub mod phase {
                 .open(log)
         {
             let on_main = std::thread::current().name() == Some("main");
-            let _ = writeln!(
-                f,
-                "{name}#{count} pid={} main={on_main}",
+            let line = format!(
+                "{name}#{count}\tpid={}\tmain={on_main}\n",
                 std::process::id()
             );
+            let _ = f.write_all(line.as_bytes());
         }
         if let Some((at, n)) = &config.at
             && at == name
